@@ -118,6 +118,29 @@ fn fri_verifier_remainder_binding_contract() {
     }
 }
 
+/// the same with the remainder commitment *missing* from the commitment list (a prover that withholds
+/// it): the remainder is then bound to nothing and must be refused
+#[kani::proof]
+#[kani::unwind(66)]
+#[kani::stub(alloc::fmt::format, fmt_stub)]
+fn fri_verifier_remainder_missing_commitment_contract() {
+    let r0: u64 = kani::any();
+    kani::assume(r0 < 0xFFFF_FFFF_0000_0001);
+    let remainder = alloc::vec![BaseElement::from_mont(r0)];
+    let options = FriOptions::new(2, 2, 0);
+    let mut ch = ChannelDouble { commitments: Some(Vec::new()), remainder: Some(remainder), partitions: 1 };
+    let mut coin = RecordingCoin::fresh(kani::any());
+    match V::new(&mut ch, &mut coin, options, 0) {
+        Ok(v) => {
+            let pos: usize = kani::any();
+            kani::assume(pos < 2);
+            let res = v.verify(&mut ch, &[BaseElement::from_mont(r0)], &[pos]);
+            assert!(res.is_err());
+        },
+        Err(_) => {},
+    }
+}
+
 /// a remainder with more coefficients than the degree bound allows is refused
 #[kani::proof]
 #[kani::unwind(66)]
